@@ -18,7 +18,7 @@ class Style:
     explicit parenthesis - otherwise the directives would belong to that method)."""
 
     def __init__(self, nl="\n", indent=IND, comments=0.0, blank=0.0, trailing=False, quote=0.0, parens=0.0,
-                 rnd=None, tabs_between=False, late=0.0, pathref=0.0):
+                 rnd=None, tabs_between=False, late=0.0, pathref=0.0, pathrules=0.0):
         self.nl, self.indent = nl, indent
         self.comments, self.blank, self.trailing = comments, blank, trailing
         self.quote, self.parens, self.rnd = quote, parens, rnd
@@ -28,6 +28,8 @@ class Style:
         # alias type, or with one property inherited through allOf); the types are renderer-private ("@zr_..."), appended
         # to the document and dropped again by project()
         self.pathref = pathref
+        # pathrules: probability that a property of a Path body carries a rule / note comment (the parameter is bound all the same)
+        self.pathrules = pathrules
 
     def flip(self, p):
         return p > 0 and self.rnd is not None and self.rnd.random() < p
@@ -234,22 +236,36 @@ HDR = {"k": "obj", "n": "", "props": [{"key": "h1", "vk": "str", "vn": ""}], "al
 QRY = {"k": "obj", "n": "", "props": [{"key": "q1", "vk": "int", "vn": ""}], "allOf": []}
 
 
+PATH_RULES = ['{optional: true}', '{min: 0}', '{max: 100}', '{type: "integer"}', 'a plain note', '{nullable: true}', '{const: true}',
+              '{enum: [1, 2]}', '{or: ["integer", "string"]}', '{optional: false}', '{min: 0, optional: true}']
+
+
+def _prop_lines(o, names, upto=None):
+    """lines '  "name": 1[,][ // rule]' of a Path body"""
+    res = []
+    for i, n in enumerate(names):
+        ln = '  "%s": 1%s' % (n, "," if i < len(names) - 1 else "")
+        if o.style.flip(o.style.pathrules):
+            ln += " // " + o.style.rnd.choice(PATH_RULES)
+        res.append(ln)
+    return res
+
+
 def render_pathdecl(o, depth, names):
     if names and o.style.flip(o.style.pathref):
         k = len(o.private_types) + 1
         form = o.style.rnd.randrange(4)
-        props = ['  "%s": 1%s' % (n, "," if i < len(names) - 1 else "") for i, n in enumerate(names)]
+        props = _prop_lines(o, names)
         if form == 3 and len(names) >= 2:
             # an inline object that inherits its first property
-            o.private_types.append(["TYPE @zr_b%d" % k, "{", '  "%s": 1' % names[0], "}"])
+            o.private_types.append(["TYPE @zr_b%d" % k, "{"] + _prop_lines(o, names[:1]) + ["}"])
             o.line(depth, "Path", "Path")
-            o.lines(depth, ['{ // {allOf: "@zr_b%d"}' % k] + ['  "%s": 1%s' % (n, "," if i < len(names) - 2 else "") for i, n in enumerate(names[1:])] + ["}"])
+            o.lines(depth, ['{ // {allOf: "@zr_b%d"}' % k] + _prop_lines(o, names[1:]) + ["}"])
             return
         if form == 2 and len(names) >= 2:
             # the first property comes from a base type
-            o.private_types.append(["TYPE @zr_b%d" % k, "{", '  "%s": 1' % names[0], "}"])
-            o.private_types.append(["TYPE @zr_p%d" % k, '{ // {allOf: "@zr_b%d"}' % k] +
-                                   ['  "%s": 1%s' % (n, "," if i < len(names) - 2 else "") for i, n in enumerate(names[1:])] + ["}"])
+            o.private_types.append(["TYPE @zr_b%d" % k, "{"] + _prop_lines(o, names[:1]) + ["}"])
+            o.private_types.append(["TYPE @zr_p%d" % k, '{ // {allOf: "@zr_b%d"}' % k] + _prop_lines(o, names[1:]) + ["}"])
             target = "@zr_p%d" % k
         else:
             o.private_types.append(["TYPE @zr_p%d" % k, "{"] + props + ["}"])
@@ -262,8 +278,7 @@ def render_pathdecl(o, depth, names):
         return
     if names:
         o.line(depth, "Path", "Path")
-        ll = ["{"] + ['  "%s": 1%s' % (n, "," if i < len(names) - 1 else "") for i, n in enumerate(names)] + ["}"]
-        o.lines(depth, ll)
+        o.lines(depth, ["{"] + _prop_lines(o, names) + ["}"])
 
 
 def path_str(p):
